@@ -12,6 +12,7 @@ from onsager import crystal, supercell
 from mc import catalog
 
 PID = 'C28'
+ENGINE = 'E2'
 TECHNIQUE = 'explicit-state BFS over real Supercell objects in lock-step with a dict reference model'
 RULE = ('states = distinct (occ, chemorder) reached by operation sequences from the empty supercell; every '
         'enabled operation of the alphabet is applied in every reached state; nontrivial = states that are '
